@@ -210,6 +210,13 @@ impl TransformerContext {
                     ));
                 }
             }
+            // a `transform` on the `use` itself applies to the instance, outside the x/y shift
+            if el.name == "use" {
+                if let (Some(transform), Some(bbox)) = (el.get_attr("transform"), el_bbox) {
+                    let transform: crate::transform_attr::TransformAttr = transform.parse()?;
+                    el_bbox = Some(transform.apply(&bbox));
+                }
+            }
         }
 
         // TODO: this logic is duplicated in `impl EventGen for SvgElement` so
